@@ -47,6 +47,7 @@ class RuleRec:
         self.observations: List[str] = []
         self.findings: List[Finding] = []
         self.idioms: List[str] = []
+        self.unrecognised: List[str] = []
 
     def instance(self, name: str) -> None:
         self.instances.append(name)
@@ -89,8 +90,22 @@ class RuleRec:
             self.violation(where, node, message, **extra)
         return cond
 
+    def expect(self, cond: bool, desc: str, where, node: Optional[ast.AST], what: str) -> bool:
+        """Recognition obligation: the construct must have the shape the rule was written for.  A failure is NOT a
+        violation (a behaviour-preserving rewrite may have changed the shape) — it makes the run fail closed with
+        ANALYSIS-ERROR (exit 2) unless a genuine violation was established elsewhere."""
+        if cond:
+            self.ok(desc)
+            return True
+        self.obligations += 1
+        construct = where.short if isinstance(where, FunctionInfo) else str(where)
+        line = getattr(node, "lineno", 0) if node is not None else 0
+        self.unrecognised.append(f"{self.id} {construct}:{line}: {what}")
+        return False
+
     def as_dict(self) -> Dict[str, Any]:
         return {
+            "unrecognised": self.unrecognised,
             "rule": self.id, "title": self.title, "armed": self.armed,
             "instances": len(self.instances), "instance_names": self.instances[:60],
             "min_instances": self.min_instances,
@@ -127,6 +142,9 @@ class Ctx:
         """Fail closed on a vacuous rule — unless a violation was already established (that verdict stands)."""
         if self.findings():
             return
+        unrec = [u for r in self.rules for u in r.unrecognised]
+        if unrec:
+            raise AnalysisError("construct(s) not in the shape the rule understands (no verdict): " + " | ".join(unrec[:4]))
         for r in self.rules:
             if len(r.instances) < r.min_instances:
                 raise AnalysisError(
